@@ -6,6 +6,10 @@ ALL = ['C%02d' % i for i in range(1, 21)]
 
 # id -> (engine, technique, level text, level note, design ref)
 CLAIMED = {
+ 'C12': ('E3-hypothesis', 'model-based property testing (Hypothesis edit-script generator vs. Python string model), idempotence relation, differential CLI -a/-r leg',
+         'Generated CriticMarkup edit scripts (all five mark types, nesting, escapes, paragraph-spanning marks, unmatched markers) are accepted/rejected through the library on the whole string and on sub-ranges and compared byte for byte with an independent model; sampled cases also go through the real CLI. Held on everything generated.',
+         'Trusted: Hypothesis, the Python model in props/c12.py, the worker protocol. Text never contains bare braces; CLI leg only without unmatched markers.',
+         'DESIGN.md section 5, C12'),
  'C01': ('E1-libfuzzer', 'coverage-guided fuzzing (libFuzzer fork mode, 6 entry-point families x pool on/off) with ASan+UBSan as the oracle, plus structured regression inputs',
          'Every text-accepting entry point (convert in all 13 formats / 17 extension bits / 7 languages / 7 API shapes, metadata, CriticMarkup, OPML and ITMZ import, transclusion) is fuzzed from the corpus in builds with and without the token pool; any sanitizer report, signal or abort is a violation. Held on everything executed; absence is not established.',
          'Trusted: clang ASan/UBSan/libFuzzer. miniz.c is built without UBSan. Inputs are cut at the first NUL for C-string APIs. Timeouts/OOM artifacts are not verdicts.',
